@@ -379,6 +379,22 @@ class Comparer(object):
             self.goal('%s contents[*]' % nm, mk_implies(inb, self.eq_elem(da.fn(idx), db.fn(idx))))
 
 
+def _ext_calls(self):
+    """Matched uninterpreted external calls (dst): same sequence, pointwise equal inputs."""
+    ca, cb = self.A.ext_calls, self.B.ext_calls
+    if [c[0] for c in ca] != [c[0] for c in cb]:
+        self.mismatch('external calls', 'code calls %s, contract calls %s' % ([c[0] for c in ca], [c[0] for c in cb]))
+        return
+    for k, (x, y) in enumerate(zip(ca, cb)):
+        for d, (p, q) in enumerate(zip(x[2], y[2])):
+            self.goal('%s call %d input.shape[%d]' % (x[0], k, d), mk_eq(p, q))
+        idx, inb = self.generic(x[2])
+        self.goal('%s call %d input[*]' % (x[0], k), mk_implies(inb, mk_eq(to_real(x[1](idx)), to_real(y[1](idx)))))
+
+
+Comparer.ext_calls = _ext_calls
+
+
 def name_pre_state(st, args):
     """Access paths for pre-state objects / array storage (for obligation names)."""
     names = {}
@@ -465,6 +481,7 @@ def run_path(prog, registry, contract, body_q, case_build, prefix, shared, modul
             if isinstance(argsA[k], (list, dict, tuple)):
                 cmp.val('arg ' + k, argsA[k], argsB[k])
         cmp.heap_pass()
+        cmp.ext_calls()
         if opts and opts.get('post'):
             # postcondition / invariant taken from the property statement, evaluated on the contract's post-state
             for nm, cond in opts['post'](fB, argsB, outB.value):
